@@ -9,6 +9,7 @@ import (
 	"github.com/vbauerster/mpb/v8/decor"
 
 	"github.com/MichaelMure/git-bug/cache"
+	"github.com/MichaelMure/git-bug/entities/bug"
 	"github.com/MichaelMure/git-bug/entities/identity"
 	"github.com/MichaelMure/git-bug/repository"
 	"github.com/MichaelMure/git-bug/util/interrupt"
@@ -25,7 +26,14 @@ func LoadRepo(env *Env) func(*cobra.Command, []string) error {
 		// Note: we are not loading clocks here because we assume that LoadRepo is only used
 		//  when we don't manipulate entities, or as a child call of LoadBackend which will
 		//  read all clocks anyway.
-		env.Repo, err = repository.OpenGoGitRepo(cwd, gitBugNamespace, nil)
+		// the clock loaders only run when a clock is missing (deleted clock files, repository
+		// copied without them ...): the clocks are then rebuilt from the stored entities, so that
+		// the next edit doesn't get a logical time lower than what is already stored.
+		loaders := []repository.ClockLoader{
+			bug.ClockLoader,
+		}
+
+		env.Repo, err = repository.OpenGoGitRepo(cwd, gitBugNamespace, loaders)
 		if err == repository.ErrNotARepo {
 			return fmt.Errorf("%s must be run from within a git Repo", RootCommandName)
 		}
